@@ -19,7 +19,7 @@ import ast
 
 from .. import astutil as A
 from .. import runoff
-from ..alg import Interp, Obj, Poly, Undecided, to_poly
+from ..alg import Interp, Obj, Poly, RaisedInFragment, Undecided, to_poly
 from ..cfg import CFG
 from ..dep import Deps
 
@@ -422,6 +422,8 @@ def _overrides(ctx, rid, repo):
             else:
                 k0 = bad[0] if bad else "name"
                 ctx.violated(rid, red, f"merged settings [{lab}]", "a per-parameter setting given in the measurement is not the merged value verbatim (a falsy value such as fixed = False must win over the default too), or a key that was not overridden lost its default", expected=f"{k0} = {show(want.get(k0))}", found=f"{k0} = {show(got.get(k0))}")
+        except RaisedInFragment as e:
+            ctx.violated(rid, red, f"merged settings [{lab}]", f"a parameter that two modifiers require with EQUAL requirements (one name shared by a normsys and a histosys, say) and a well-formed override is refused with {e.exc_name}: the parameter must be created once, from the common requirement and the override")
         except (Undecided, KeyError, TypeError, ValueError, AttributeError) as e:
             ctx.unrecognised(rid, red, f"reduce_paramsets_requirements [{lab}]", f"not interpretable: {type(e).__name__}: {e}")
 
